@@ -48,8 +48,8 @@ func VerifMatchesListItem(line []byte, strict bool) ([6]int, int) {
 }
 
 // VerifCalcListOffset exposes calcListOffset.
-func VerifCalcListOffset(source []byte, match [6]int) int {
-	return calcListOffset(source, match)
+func VerifCalcListOffset(source []byte, match [6]int, lineOffset int) int {
+	return calcListOffset(source, match, lineOffset)
 }
 
 // VerifLastOffset exposes lastOffset on a list whose items have the given offsets.
